@@ -84,6 +84,21 @@ CHECKS = [
      'Schedules are at the granularity "inside the factory / not"; a loader blocked inside cctz is recognised by its /proc task state (bounded poll; unrealised steps are counted, never reported).', 'DESIGN.md §5 C20'),
 ]
 claimed = {c['property_id'] for c in CHECKS}
+# additions made while strengthening the checks against seeded changes (appended to the level text)
+ADDED = {
+ 'C11': ' The templated overloads for sub-second time_points are related to the whole-second answers (next(t+f) = next(t), prev(t+f) = prev(t+1)); abbreviation-only changes to a related name (extended, truncated, shared tail) are generated on purpose.',
+ 'C12': ' Structured mutants also run under a g++ ASan/UBSan build with its own seeds (UB that one compiler folds away), and every saved case replays under both builds.',
+ 'C13': ' Each call\'s own result (including the return value and zone of a racing first load into a default or a pre-set time_zone) is what is compared; half of the in-memory names are served slowly (the harness-owned factory sleeps inside the load); one workload in four hammers a single shared zone through per-thread handles.',
+ 'C14': ' The loader cache is process-wide: the number of names loaded earlier in the process is part of each cache case (a replay re-creates a history of that size), and some sequences are preceded by a generated history of 300-5000 names.',
+ 'C15': ' Sequences of related offsets on one thread (equal modulo 2^32/2^16, negated, repeated) must answer as each call does alone; every accepted spelling keeps reporting the name it was asked for while the canonical name and fixed_time_zone(offset) keep the canonical one.',
+ 'C17': ' Both tiers include the contiguous band of years -10000..9999 (an error keyed on the absolute year cannot hide between sampled windows).',
+ 'C19': ' TZ values that merely begin with the keyword (localtime.bak, localtime/Paris, ...) and pairs of spellings of one fixed offset loaded in one process are part of the matrix.',
+ 'C20': ' The two-thread schedules are also run late in the life of a process (after 300-9000 distinct failing/valid names), with a sample of those names asked for again.',
+}
+for c in CHECKS:
+    if c['property_id'] in ADDED:
+        c['level_claimed']['text'] += ADDED[c['property_id']]
+
 MANIFEST = {
  'version': 1,
  'setup_cmd': './setup.sh',
@@ -98,7 +113,7 @@ MANIFEST = {
  'engines': [
    {'name': 'check', 'path': 'check', 'serves_properties': sorted(claimed),
     'kind_free_text': 'python driver: content-hashed rebuild of cctz from /repo working tree (clang ASan+UBSan/TSan/fuzzer), '
-                      'runs rapidcheck / libFuzzer / exhaustive-enumeration harness binaries in shards, 3x replay confirmation, evidence merge'},
+                      '(one check also with g++), runs rapidcheck / libFuzzer / exhaustive-enumeration harness binaries in shards, 3x replay confirmation, evidence merge'},
  ],
  'checks': CHECKS,
  'not_applicable': [{'property_id': i, 'reason': 'check not built yet (work in progress; see DESIGN.md §9)'}
